@@ -35,7 +35,8 @@ func VerifUnmarshal(msg string) (action, address, id string, ok bool) {
 func VerifAdoptClock(p *RedisPubsubPeers, c clockwork.Clock) {
 	p.peers.Clock = c
 	for k, it := range p.peers.Items {
-		p.peers.Set(k, it.Value)
+		it.Expiration = c.Now().Add(p.peers.TTL)
+		p.peers.Items[k] = it
 	}
 }
 
